@@ -501,6 +501,16 @@ class Prop(Check):
         "History.C16_memo_frame",
         "History.C16_noClear_false",
         "History.C16_shareInstances_false",
+        "History.C16_walk_is_reach",
+        "History.C16_stores_reachable",
+        "History.C16_stores_reachable_fresh",
+        "History.C16_walk_clears",
+        "History.C16_walk_frame",
+        "History.C16_walk_run",
+        "History.C16_history_walk",
+        "History.C16_same_as_fresh_walk",
+        "History.C16_walk_sep_false",
+        "History.C16_creation_frame",
     ]
     DRIVER = "Drivers/History.lean"
     QUICK_CASES = 72          # x 5 histories = 360 histories, ~2600 operations
@@ -518,7 +528,8 @@ class Prop(Check):
                 "user-class instrumentation counters and collected attributes (model.py _replace/_restore_user_attr_methods, "
                 "_discard_user_obj_attrs), grammar-parser cache keyed by the debug flag (lang.py textX_parsers), _tx_class "
                 "back-pointer of the shared base-type rules (metamodel.py _init_class); parsing computed by the Arpeggio "
-                "mirror Peg.parse started on the surviving caches; the semantic phases (object construction, reference "
+                "mirror Peg.parse started on the surviving caches and cleared by the mirror of ParsingExpression._clear_cache (walk "
+                "along `nodes` from parser model and comments model, not along `sep`); the semantic phases (object construction, reference "
                 "resolution, __init__, processors) are parameters: arbitrary functions of what the code reads from that state. "
                 "Tie X: every history replayed by the Lean machine on the dumped real parser models; compared: parse tree / "
                 "syntax-error position of every load, number of memo-cache stores, instrumentation counts seen by user "
@@ -528,8 +539,10 @@ class Prop(Check):
                 "registered languages / `reference` statements, debug output")
     ASSUMPTIONS = [
         "the pool's metamodels do not share user classes, processors or scope-provider objects with each other",
-        "Arpeggio clears memo caches by walking the parser model; the model clears all entries (every written node is reachable): "
-        "checked at run time by observing zero entries on all rule objects after every load",
+        "the separators of the repetitions of every parser model are Match objects (textX's grammar language admits no others); "
+        "under this premise (`walkOK`, evaluated by the Lean driver on every dumped pool and reported as a disagreement when "
+        "false) clearing the memo caches by walking the parser model — what Arpeggio does and what the driver's machine "
+        "`realWalk` does — is proved equal to dropping every entry (C16_walk_run, C16_stores_reachable)",
         "the compiled parser model of a grammar does not depend on the memoization flag of the cached grammar parser "
         "(the grammar parser is created by the first metamodel of a debug class): checked on the implementation by the solo reference",
     ]
@@ -634,6 +647,10 @@ class Prop(Check):
                 d = self.out_diff(st, louts[i], run["lean"]["trees"][i])
                 if d:
                     return f"{where}: {d}"
+            # the machine run by the driver (`realWalk`) is the machine of the history theorems only under this premise
+            if ans.get("walkOK") is not True:
+                return (f"history {h}: a repetition reachable from a parser model has a separator that is not a Match object "
+                        f"(walkOK = {ans.get('walkOK')}): Arpeggio's cache walk does not follow `sep`, the premise of C16_walk_run fails")
         return None
 
     @staticmethod
